@@ -90,6 +90,8 @@ theorem locate_tag (audio : Bytes) (items : List Ape.Item) (hs : ((items.map Ape
   have c3 : ¬ (Ape.hasHeader / hasHeaderFlag % 2 = 1 ∧ (audio ++ (H ++ body ++ F)).length - (body.length + 32) < 32) := by
     rw [hdata]; omega
   rw [if_neg c3]
+  have c3' : ¬ (body.length + 32 < 32) := by omega
+  rw [if_neg c3']
   simp only [hflag, ↓reduceIte, hdata, Nat.add_sub_cancel]
   have hfix : fixBroken (audio ++ (H ++ body ++ F)) audio.length audio.length = audio.length := by
     apply fixBroken_stays
@@ -190,6 +192,8 @@ theorem locate_tag_v1 (audio v1 : Bytes) (items : List Ape.Item)
   have hflag : Ape.hasHeader / hasHeaderFlag % 2 = 1 := by decide
   have c4 : ¬ (Ape.hasHeader / hasHeaderFlag % 2 = 1 ∧ (P ++ F).length - (body.length + 32) < 32) := by rw [hdata]; omega
   rw [if_neg c4]
+  have c4' : ¬ (body.length + 32 < 32) := by omega
+  rw [if_neg c4']
   simp only [hflag, ↓reduceIte, hdata, Nat.add_sub_cancel]
   have hfix : fixBroken ((P ++ F) ++ v1) audio.length audio.length = audio.length := by
     apply fixBroken_stays
